@@ -167,36 +167,6 @@ fn check_case<'a>(b: &'a AllBuilder<'a>, c: &Case, evals: &mut u64) -> Option<(S
         }
     }
     let params: WmcParams<RealSemiring> = WmcParams::new(w.iter().enumerate().map(|(v, &(l, h))| (VarLabel::new(v as u64), (RealSemiring(l), RealSemiring(h)))).collect::<HashMap<_, _>>());
-    for alg in ["marginal_map", "bb<RealSemiring>"] {
-        *evals += 1;
-        let r = guarded(|| {
-            if alg == "marginal_map" {
-                p.marginal_map(&qvars, n, &params)
-            } else {
-                let (v, m) = p.bb(&qvars, n, &params);
-                (v.0, m)
-            }
-        });
-        match r {
-            Err(e) => return Some((alg.into(), format!("panicked: {}", e))),
-            Ok((val, m)) => {
-                if val != best {
-                    return Some((alg.into(), format!("returns {}, the maximum over the {} query assignments is {} (values {:?}, weights {:?})", val, vals.len(), best, vals, w)));
-                }
-                match model_bits(&m, &c.q, n) {
-                    Err(e) => return Some((alg.into(), e)),
-                    Ok(bits) => {
-                        if vals[bits] != best {
-                            return Some((alg.into(), format!("returned assignment {:#b} has value {}, not the reported optimum {}", bits, vals[bits], best)));
-                        }
-                    }
-                }
-                if !p.is_scratch_cleared() {
-                    return Some((alg.into(), "left scratch data on the diagram".into()));
-                }
-            }
-        }
-    }
     // ---- expected utility: meu and bb<ExpectedUtility> ----
     // utilities only on variables ordered after every decision variable
     let last_decision_level = c.q.iter().map(|&v| levels[v]).max();
@@ -245,23 +215,63 @@ fn check_case<'a>(b: &'a AllBuilder<'a>, c: &Case, evals: &mut u64) -> Option<(S
     let params_eu: WmcParams<ExpectedUtility> = WmcParams::new(
         we.iter().enumerate().map(|(v, &(l, h))| (VarLabel::new(v as u64), (ExpectedUtility(l.0, l.1), ExpectedUtility(h.0, h.1)))).collect::<HashMap<_, _>>(),
     );
-    for alg in ["meu", "bb<ExpectedUtility>"] {
-        *evals += 1;
-        let r = guarded(|| if alg == "meu" { p.meu(&qvars, n, &params_eu) } else { p.bb(&qvars, n, &params_eu) });
-        match r {
-            Err(e) => return Some((alg.into(), format!("panicked: {}", e))),
-            Ok((val, m)) => {
-                if val.1 != best_eu {
-                    return Some((alg.into(), format!("returns expected utility {}, the maximum over the decision assignments is {} (values {:?}, weights {:?})", val.1, best_eu, evals_eu, we)));
+    // the four algorithms run in an order that rotates with the case, so that the last query on
+    // one diagram and the first query on the next (which shares nodes with it inside the
+    // long-lived builder) are of the same kind as often as of different kinds
+    let mut algs = ["marginal_map", "bb<RealSemiring>", "meu", "bb<ExpectedUtility>"];
+    let rot = ((c.f as usize) ^ c.wcode ^ c.q.len()) % 8;
+    algs.rotate_left(rot % 4);
+    if rot >= 4 {
+        algs.reverse();
+    }
+    for alg in algs {
+        if alg == "marginal_map" || alg == "bb<RealSemiring>" {
+            *evals += 1;
+            let r = guarded(|| {
+                if alg == "marginal_map" {
+                    p.marginal_map(&qvars, n, &params)
+                } else {
+                    let (v, m) = p.bb(&qvars, n, &params);
+                    (v.0, m)
                 }
-                match model_bits(&m, &c.q, n) {
-                    Err(e) => return Some((alg.into(), e)),
-                    Ok(bits) => {
-                        if evals_eu[bits].1 != best_eu {
-                            return Some((alg.into(), format!("returned decision {:#b} has expected utility {}, not the reported optimum {}", bits, evals_eu[bits].1, best_eu)));
+            });
+            match r {
+                Err(e) => return Some((alg.into(), format!("panicked: {}", e))),
+                Ok((val, m)) => {
+                    if val != best {
+                        return Some((alg.into(), format!("returns {}, the maximum over the {} query assignments is {} (values {:?}, weights {:?})", val, vals.len(), best, vals, w)));
+                    }
+                    match model_bits(&m, &c.q, n) {
+                        Err(e) => return Some((alg.into(), e)),
+                        Ok(bits) => {
+                            if vals[bits] != best {
+                                return Some((alg.into(), format!("returned assignment {:#b} has value {}, not the reported optimum {}", bits, vals[bits], best)));
+                            }
                         }
-                        if evals_eu[bits].0 != val.0 && evals_eu.iter().filter(|e| e.1 == best_eu).count() == 1 {
-                            return Some((alg.into(), format!("returned probability component {} differs from the attained one {}", val.0, evals_eu[bits].0)));
+                    }
+                    if !p.is_scratch_cleared() {
+                        return Some((alg.into(), "left scratch data on the diagram".into()));
+                    }
+                }
+            }
+        } else {
+            *evals += 1;
+            let r = guarded(|| if alg == "meu" { p.meu(&qvars, n, &params_eu) } else { p.bb(&qvars, n, &params_eu) });
+            match r {
+                Err(e) => return Some((alg.into(), format!("panicked: {}", e))),
+                Ok((val, m)) => {
+                    if val.1 != best_eu {
+                        return Some((alg.into(), format!("returns expected utility {}, the maximum over the decision assignments is {} (values {:?}, weights {:?})", val.1, best_eu, evals_eu, we)));
+                    }
+                    match model_bits(&m, &c.q, n) {
+                        Err(e) => return Some((alg.into(), e)),
+                        Ok(bits) => {
+                            if evals_eu[bits].1 != best_eu {
+                                return Some((alg.into(), format!("returned decision {:#b} has expected utility {}, not the reported optimum {}", bits, evals_eu[bits].1, best_eu)));
+                            }
+                            if evals_eu[bits].0 != val.0 && evals_eu.iter().filter(|e| e.1 == best_eu).count() == 1 {
+                                return Some((alg.into(), format!("returned probability component {} differs from the attained one {}", val.0, evals_eu[bits].0)));
+                            }
                         }
                     }
                 }
